@@ -419,10 +419,18 @@ fn gen_c07_ultra(seed: u64, tier: Tier) -> Scenario {
         sc.config.interp = 1;
     }
     sc.signal = Signal::Const { v: 0.5 };
-    let frames: f64 = if tier == Tier::Quick { 3.0e7 } else { 4.0e8 };
+    // a relative rate error of 2^-25 (a ratio kept in single precision somewhere) needs (L + 3 + 4/r) * 2^25 input
+    // frames to leave the bound: 4e8 .. 2.5e9; the polynomial kinds are cheap enough for that at the thorough tier
+    let frames: f64 = if tier == Tier::Quick {
+        3.0e7
+    } else if kind.is_sinc() {
+        4.0e8
+    } else {
+        2.5e9
+    };
     let per_call = match kind {
-        Kind::FastIn | Kind::SincIn => sc.config.chunk as f64,
-        _ => sc.config.chunk as f64 / ratio,
+        Kind::FastIn | Kind::SincIn => (sc.config.chunk as f64).max(sc.config.chunk as f64 * ratio),
+        _ => (sc.config.chunk as f64 / ratio).max(sc.config.chunk as f64),
     };
     let n = (frames / per_call.max(1.0)) as usize;
     let mut ops = Vec::with_capacity(n + 2);
@@ -448,7 +456,8 @@ fn gen_c07_ultra(seed: u64, tier: Tier) -> Scenario {
 }
 
 fn gen_c07(seed: u64, tier: Tier) -> Scenario {
-    if Rng::new(seed ^ 0xC07).chance(if tier == Tier::Quick { 6.4e-4 } else { 2.7e-4 }) {
+    let p_ultra = std::env::var("RSIM_ULTRA_P").ok().and_then(|s| s.parse::<f64>().ok()).unwrap_or(if tier == Tier::Quick { 6.4e-4 } else { 2.7e-4 });
+    if Rng::new(seed ^ 0xC07).chance(p_ultra) {
         return gen_c07_ultra(seed, tier);
     }
     let (mut rng, mut sc) = base_scenario("C07", seed);
